@@ -14,6 +14,7 @@ use crate::variant::*;
 // Rust 1.14.0 requires the following despite the asterisk above.
 use super::in_inclusive_range16;
 
+#[cfg_attr(feature = "hsivonen_encoding_rs_verif", derive(Debug, Eq, Hash))]
 #[derive(Copy, Clone, PartialEq)]
 enum Iso2022JpDecoderState {
     Ascii,
@@ -25,6 +26,7 @@ enum Iso2022JpDecoderState {
     Escape,
 }
 
+#[cfg_attr(feature = "hsivonen_encoding_rs_verif", derive(Debug, Clone, PartialEq, Eq, Hash))]
 pub struct Iso2022JpDecoder {
     decoder_state: Iso2022JpDecoderState,
     output_state: Iso2022JpDecoderState, // only takes 1 of first 4 values
@@ -441,12 +443,14 @@ fn encode_kanji(bmp: u16) -> Option<(u8, u8)> {
     }
 }
 
+#[cfg_attr(feature = "hsivonen_encoding_rs_verif", derive(Debug, Clone, PartialEq, Eq, Hash))]
 enum Iso2022JpEncoderState {
     Ascii,
     Roman,
     Jis0208,
 }
 
+#[cfg_attr(feature = "hsivonen_encoding_rs_verif", derive(Debug, Clone, PartialEq, Eq, Hash))]
 pub struct Iso2022JpEncoder {
     state: Iso2022JpEncoderState,
 }
